@@ -52,8 +52,8 @@ def reblank_ref(rng, m):
 def reblank_tokens(rng, s, token_re):
     """re-space a token string: tokens are kept, single spaces inserted/removed between them"""
     toks = token_re.findall(s)
-    if "".join(toks) != s.replace(" ", ""):
-        return s               # contains something that is not a token or a space: leave alone
+    if "".join(toks) != s.replace(" ", "") or len(s) > 300:
+        return s               # not only tokens and spaces, or near a length limit (re-spacing would cross it): leave alone
     out = ""
     for i, t in enumerate(toks):
         if i and (rng.random() < 0.5 or (re.match(r"[A-Za-z0-9_]", t) and re.match(r"[A-Za-z0-9_]", toks[i - 1]))):
@@ -133,21 +133,12 @@ def build_renaming(rng, doc, vals):
             new = fresh_like(rng, n, taken)
             if new:
                 ren[n] = new
-    for p in doc.get("parameterDefinitions") or []:
-        if isinstance(p, dict):
-            add(p.get("name"))
-    for st in doc.get("steps") or []:
-        if not isinstance(st, dict):
-            continue
-        ps = st.get("parameterSpace")
-        if isinstance(ps, dict):
-            for tp in ps.get("taskParameterDefinitions") or []:
-                if isinstance(tp, dict):
-                    add(tp.get("name"))
-    for sc in M.scripts(doc):
-        for f in sc.get("embeddedFiles") or []:
-            if isinstance(f, dict):
-                add(f.get("name"))
+    for p in M.job_params(doc):
+        add(p.get("name"))
+    for tp in M.task_params(doc):
+        add(tp.get("name"))
+    for f in M.files(doc):
+        add(f.get("name"))
     return ren
 
 
@@ -202,6 +193,8 @@ def rename_job(ren, obj):
 def norm_blanks(obj):
     """blanks inside '{{ }}' of the strings a Job keeps unresolved are presentation"""
     def f(s, path):
+        if path and path[-1] in ("combination", "range"):
+            return s.replace(" ", "")      # token strings: blanks between tokens are presentation
         return REF.sub(lambda m: "{{" + re.sub(r"[ ]+", "", m.group(1)) + "}}" if re.fullmatch(r"[ A-Za-z0-9_.]*", m.group(1)) else m.group(0), s)
     return map_strings(obj, f)
 
@@ -228,13 +221,17 @@ class C19(core.PropBase):
             kind = "env" if i % 6 == 5 else "job"
             doc = G.gen_env_template(rng, full=rng.random() < 0.3) if kind == "env" else G.gen_job_template(rng, full=rng.random() < 0.3)
             ops = []
-            if i % 3 == 2:
+            if rng.random() < 0.34:
                 ops = [list(o) for o in M.mutate(rng, doc, n=rng.choice([1, 1, 2]))]
             try:
                 json.dumps(doc)
             except (TypeError, ValueError):
                 continue
-            vals = c05.values_with_refs_text(rng, doc) if kind == "job" else {}
+            try:
+                vals = c05.values_with_refs_text(rng, doc) if kind == "job" else {}
+            except Exception:  # noqa: BLE001  (a mutated definition list may be unusable for value generation)
+                vals = {}
+            vals = {k: v for k, v in vals.items() if isinstance(k, str) and isinstance(v, str)}
             yield {"kind": kind, "doc": doc, "vals": vals, "ops": ops, "tseed": rng.randrange(1 << 30)}
 
     def rule(self, tier):
@@ -282,7 +279,7 @@ class C19(core.PropBase):
             return "raise:" + type(e).__name__, None
         if kind != "job":
             return "accept", None
-        types = {p["name"]: p["type"] for p in doc.get("parameterDefinitions") or []}
+        types = {p.get("name"): p.get("type") for p in M.job_params(doc)}
         try:
             pv = {k: ParameterValue(type=ParameterValueType(types[k]), value=v) for k, v in vals.items()}
             job = create_job(job_template=t, job_parameter_values=pv)
